@@ -12,6 +12,7 @@ mod weighted;
 mod choices;
 mod compose;
 mod generation;
+mod laws;
 mod ordering;
 mod plushy;
 mod proj;
@@ -27,7 +28,19 @@ fn main() {
     }
     util::silence_panics();
     let rest = &args[1..];
-    let rc = match args[0].as_str() {
+    // A panic of the code under test that a driver did not intercept is still an observation:
+    // report it (exit 3) instead of dying with a backtrace.
+    let rc = std::panic::catch_unwind(|| dispatch(&args[0], rest)).unwrap_or_else(|e| {
+        let msg = e.downcast_ref::<&str>().map(|s| (*s).to_string())
+            .or_else(|| e.downcast_ref::<String>().cloned()).unwrap_or_else(|| "panic".to_string());
+        println!("UNGUARDED-PANIC {}", serde_json::json!({"subcommand": args[0], "msg": msg}));
+        3
+    });
+    std::process::exit(rc);
+}
+
+fn dispatch(cmd: &str, rest: &[String]) -> i32 {
+    match cmd {
         "stack-replay" => stack::replay(rest),
         "stack-trace" => stack::trace(rest),
         "ch-replay" => choices::replay(rest),
@@ -35,6 +48,7 @@ fn main() {
         "ch-trace" => choices::trace(rest),
         "cmp-replay" => compose::replay(rest),
         "cmp-trace" => compose::trace(rest),
+        "law-var" => laws::run(rest),
         "gen-trace" => generation::trace(rest),
         "ord-replay" => ordering::replay(rest),
         "ord-construct" => ordering::construct_trace(rest),
@@ -58,6 +72,5 @@ fn main() {
             eprintln!("unknown subcommand {other}");
             2
         }
-    };
-    std::process::exit(rc);
+    }
 }
